@@ -802,7 +802,13 @@ def unify(s: Type | Const, t: Type | Const, subst: "Subst | None") -> "Subst | N
             if len(s.inputs) != len(t.inputs):
                 return None
             for a, b in zip(s.inputs, t.inputs, strict=True):
-                if a.ty.linear and b.ty.linear and a.flags != b.flags:
+                # Whether an input is owned or borrowed changes the Hugr signature for all
+                # non-copyable types (also affine ones like arrays), not just linear ones
+                if (
+                    not a.ty.copyable
+                    and not b.ty.copyable
+                    and a.flags != b.flags
+                ):
                     return None
             return _unify_args(s, t, subst)
         case TupleType() as s, TupleType() as t:
